@@ -14,6 +14,9 @@ def sh(cmd, **kw):
     return subprocess.run(cmd, shell=True, stdout=subprocess.PIPE, stderr=subprocess.STDOUT, text=True, **kw)
 
 
+PREV = {}
+
+
 def evaluate(sid, wt, tier, run_all, evdir):
     d = os.path.join(ROOT, 'seeded', sid)
     own = sid.split('-')[0]
@@ -23,7 +26,9 @@ def evaluate(sid, wt, tier, run_all, evdir):
         return sid, {'error': 'patch does not apply to /repo HEAD: ' + r.stdout[-300:]}
     res = {'own': own, 'caught_by': [], 'first_line': {}}
     env = dict(os.environ, VERIF_REPO=wt, VERIF_EVIDENCE=evdir)
-    order = [own] + [c for c in ALL if c != own]
+    # the property's own check first, then the checks that reported this change in an earlier evaluation, then the rest
+    hint = [c for c in PREV.get(sid, {}).get('caught_by', []) if c != own]
+    order = [own] + hint + [c for c in ALL if c != own and c not in hint]
     for cid in order:
         p = subprocess.run(['./check', cid, '--tier', tier], cwd=ROOT, env=env, stdout=subprocess.PIPE, stderr=subprocess.STDOUT, text=True)
         if p.returncode == 1 and 'VIOLATION property=' in p.stdout:
@@ -64,6 +69,7 @@ def main():
         wts.append(wt)
     out_path = os.path.join(ROOT, 'seeded', 'results_%s.json' % tier)
     results = json.load(open(out_path)) if os.path.exists(out_path) else {}
+    PREV.update(results)
     import queue
     free = queue.Queue()
     for w in wts:
